@@ -37,6 +37,42 @@ class _Desugar(ast.NodeTransformer):
         return node
 
     def _split(self, node, value, make):
+        if self.depth and value is not None and not isinstance(value, ast.IfExp):
+            # exactly one conditional expression buried in the value, evaluated unconditionally: f((a if c else b)[k])  ->  if c: f(a[k]) else: f(b[k])
+            found = []
+
+            def scan(e, parent, field, index):
+                if isinstance(e, (ast.Lambda, ast.ListComp, ast.SetComp, ast.DictComp, ast.GeneratorExp)):
+                    return
+                if isinstance(e, ast.IfExp):
+                    found.append((parent, field, index, e))
+                    return
+                if isinstance(e, ast.BoolOp):
+                    scan(e.values[0], e, 'values', 0)
+                    return
+                for fld, val in ast.iter_fields(e):
+                    if isinstance(val, ast.AST):
+                        scan(val, e, fld, None)
+                    elif isinstance(val, list):
+                        for i, y in enumerate(val):
+                            if isinstance(y, ast.AST):
+                                scan(y, e, fld, i)
+            scan(value, None, None, None)
+            if len(found) == 1 and found[0][0] is not None:
+                import copy
+                parent, field, index, ife = found[0]
+
+                def with_(choice):
+                    if index is None:
+                        setattr(parent, field, choice)
+                    else:
+                        getattr(parent, field)[index] = choice
+                    v = copy.deepcopy(value)
+                    return v
+                a = with_(ife.body)
+                b = with_(ife.orelse)
+                with_(ife)
+                value = ast.copy_location(ast.IfExp(test=ife.test, body=a, orelse=b), value)
         if self.depth == 0 or not isinstance(value, ast.IfExp):
             return node
         body = make(value.body)
@@ -1321,6 +1357,40 @@ class _Subst(ast.NodeTransformer):
     visit_AsyncFunctionDef = visit_Lambda = visit_FunctionDef
 
 
+def _unstage_fields(fn):
+    """`tmp = <value>` ... uses of tmp ... `self.field = tmp` (tmp bound once, the store is the last mention of tmp, all in one statement list):
+    the field is given the value at once and the uses go through the field -- the data flow is the same, and it is the shape of a constructor
+    that does not stage its state"""
+    if not fn.args.args:
+        return
+    recv = fn.args.args[0].arg
+    stores = _stores(fn)
+    body = fn.body
+    for i, st in enumerate(body):
+        if isinstance(st, ast.Assign) and len(st.targets) == 1 and isinstance(st.targets[0], ast.Attribute) and isinstance(st.targets[0].value, ast.Name) and \
+                st.targets[0].value.id == recv and isinstance(st.value, ast.Name) and stores.get(st.value.id) == 1:
+            tmp, field = st.value.id, st.targets[0].attr
+            first = next((j for j, s0 in enumerate(body[:i]) if isinstance(s0, ast.Assign) and len(s0.targets) == 1 and isinstance(s0.targets[0], ast.Name) and s0.targets[0].id == tmp), None)
+            if first is None:
+                continue
+            if any(isinstance(x, ast.Name) and x.id == tmp for s1 in body[i + 1:] for x in ast.walk(s1)):
+                continue
+            if any(isinstance(x, ast.Attribute) and x.attr == field and isinstance(x.value, ast.Name) and x.value.id == recv for s1 in body[first:i] for x in ast.walk(s1)):
+                continue
+            body[first].targets = [ast.copy_location(ast.Attribute(value=ast.Name(id=recv, ctx=ast.Load()), attr=field, ctx=ast.Store()), body[first].targets[0])]
+
+            class _T(ast.NodeTransformer):
+                def visit_Name(self, node):
+                    if node.id == tmp and isinstance(node.ctx, ast.Load):
+                        return ast.copy_location(ast.Attribute(value=ast.Name(id=recv, ctx=ast.Load()), attr=field, ctx=ast.Load()), node)
+                    return node
+            for j in range(first + 1, i):
+                body[j] = _T().visit(body[j])
+            del body[i]
+            ast.fix_missing_locations(fn)
+            return _unstage_fields(fn)
+
+
 def _record_types(tree):
     """module-level record types whose fields are known: `T = namedtuple('T', [...])` and classes whose __init__ stores each parameter in the
     attribute of the same name -> {name: [field, ...]} in constructor order"""
@@ -1550,7 +1620,15 @@ class Module:
             self.assigns = {}
             return
         self.lines = src.splitlines()
-        self.tree = ast.fix_missing_locations(_Desugar().visit(tree if tree is not None else ast.parse(src, filename=relpath)))
+        raw = tree if tree is not None else ast.parse(src, filename=relpath)
+        known_functions()
+        kd = _KNOWN_EXTRA.get('digests', {}).get(relpath)
+        if kd is not None:
+            # functions that are not as they were when the tree was read: a field that is staged in a local gets its value directly
+            for q, node in function_table(raw).items():
+                if q in kd and kd[q] != fn_digest(node) and '.' in q:
+                    _unstage_fields(node)
+        self.tree = ast.fix_missing_locations(_Desugar().visit(raw))
         known = known_functions().get(relpath)
         if known is not None and _InlineNewHelpers(self.tree, known, foreign=foreign, modname=name, is_pkg=relpath.endswith('__init__.py')).run():
             ast.fix_missing_locations(self.tree)
